@@ -59,6 +59,7 @@ rvars == <<sh, ds, fms, exit, selStr, pc, mode, ntMode, todo, fbleft, en, nsetup
    resets    : [comp -> [attr -> default]]       will_reset_to attributes (incl. inherited markers)
    plain     : [comp -> [attr -> initial]]       other attributes
    feedbacks : set of [o |-> owner, key |-> key] (owner "robot" or a component)
+   fbtypes   : [key -> return type hint of the getter: "int" "float" "bool" "str" "int[]" ... "struct" "none"]
    teleAuto  : use_teleop_in_autonomous
    modes     : set of autonomous mode names;  defmode : the DEFAULT one or None
    period    : control_loop_wait_time in microseconds                                   *)
@@ -113,6 +114,14 @@ ResetVals(v) == [c \in CompSet |-> [a \in Attrs(c) |-> IF a \in DOMAIN sh.resets
                                                        /\ "reset_skipped" \notin Dev
                                                        THEN sh.resets[c][a] ELSE v[c][a]]]
 FbKeys == {g.key : g \in sh.feedbacks}
+\* a getter returns element (ret mod n) of its type's value domain (the driver owns the concrete values);
+\* int-typed and un-hinted getters return ret itself
+FbVal(k, ret) == CASE sh.fbtypes[k] \in {"int", "none"} -> ret [] sh.fbtypes[k] = "bool" -> ret % 2 [] OTHER -> ret % 3
+\* the documented topic type for a return hint ("" = not specified: un-hinted getters are typed by inference)
+FbTypeString(ty) ==
+    CASE ty = "bool" -> "boolean" [] ty = "float" -> "double" [] ty = "str" -> "string" [] ty = "struct" -> "struct:Translation2d"
+      [] ty = "bool[]" -> "boolean[]" [] ty = "float[]" -> "double[]" [] ty = "str[]" -> "string[]"
+      [] ty = "struct[]" -> "struct:Translation2d[]" [] ty = "none" -> "" [] OTHER -> ty
 
 Init(layout, f) ==
     /\ sh = layout /\ ds = "disabled" /\ fms = f /\ exit = FALSE /\ selStr = ""
@@ -210,7 +219,7 @@ Callback(ev) ==
     /\ nsetup' = IF ev.k = "setup" THEN [nsetup EXCEPT ![ev.o] = @ + 1] ELSE nsetup
     /\ rv' = ApplyWrites(rv, ev.w)
     /\ now' = now + ev.adv
-    /\ fbNT' = IF IsFb(ev) /\ ~ev.raise THEN [fbNT EXCEPT ![ev.key] = ev.ret] ELSE fbNT
+    /\ fbNT' = IF IsFb(ev) /\ ~ev.raise THEN [fbNT EXCEPT ![ev.key] = FbVal(ev.key, ev.ret)] ELSE fbNT
     /\ nfault' = nfault + (IF ev.raise THEN 1 ELSE 0)
     /\ swallowed' = swallowed + (IF ev.raise /\ ~fatal THEN 1 ELSE 0)
     /\ IF fatal
